@@ -74,6 +74,9 @@ follows::
 """
 
 
+from types import ModuleType as _ModuleType
+
+
 class TagLibrary:
 
     """Tag Library Class. It stores a list of agent tags and their unique identifiers.
@@ -220,7 +223,9 @@ def add_tag(tag_name: str):
     DuplicateTagError
         If a tag_name that already exists is used.
     """
-    if tag_name in globals():  # The module's own names always win over tag lookups, so they cannot be tags
+    # The module's own names (and the attributes every module object has, such as __annotations__) always win over
+    # tag lookups, so they cannot be tags
+    if tag_name in globals() or tag_name in dir(_ModuleType):
         raise DuplicateTagError(tag_name)
     _module_library.add_tag(tag_name)
 
